@@ -129,6 +129,13 @@ func race(file string, timeout int, only string) solveResult {
 			case "timeout":
 				res = "timeout"
 			}
+			// any parse/sort error means the query was not the one we meant: never trust the answer
+			for _, ln := range strings.Split(text, "\n") {
+				if strings.HasPrefix(ln, "(error") && !strings.Contains(ln, "model is not available") && !strings.Contains(ln, "cannot get model") && !strings.Contains(ln, "Cannot get model") {
+					res = "error"
+					break
+				}
+			}
 			ch <- r{res, s.name, text, time.Since(start).Seconds()}
 		}(s)
 	}
@@ -136,11 +143,17 @@ func race(file string, timeout int, only string) solveResult {
 	last.res = "unknown"
 	for i := 0; i < n; i++ {
 		x := <-ch
+		if x.res == "error" {
+			if last.solver == "" || last.res == "error" {
+				last = x
+			}
+			continue
+		}
 		if x.res == "unsat" || x.res == "sat" {
 			cancel()
 			return solveResult{x.res, x.solver, x.out, x.secs}
 		}
-		if x.res == "timeout" || last.solver == "" {
+		if x.res == "timeout" || last.solver == "" || last.res == "error" {
 			last = x
 		}
 	}
